@@ -41,6 +41,10 @@ def same(a, b, path="obj", seen=None, strict_order=True):
             if a.flags["F_CONTIGUOUS"] != b.flags["F_CONTIGUOUS"] or a.flags["C_CONTIGUOUS"] != b.flags["C_CONTIGUOUS"]:
                 return f"{path}: memory layout C={a.flags['C_CONTIGUOUS']},F={a.flags['F_CONTIGUOUS']} vs C={b.flags['C_CONTIGUOUS']},F={b.flags['F_CONTIGUOUS']}"
         if isinstance(a, np.ma.MaskedArray):
+            # `nomask` and an explicit all-False mask array are different states of the object (a.mask.shape, mutability of the mask)
+            if (np.ma.getmask(a) is np.ma.nomask) != (np.ma.getmask(b) is np.ma.nomask):
+                return f"{path}.mask: {'nomask' if np.ma.getmask(a) is np.ma.nomask else 'mask array'} vs " \
+                       f"{'nomask' if np.ma.getmask(b) is np.ma.nomask else 'mask array'}"
             return same(np.asarray(a.data), np.asarray(b.data), path + ".data", seen) or \
                 same(np.ma.getmaskarray(a), np.ma.getmaskarray(b), path + ".mask", seen)
         if a.dtype == object:
